@@ -41,6 +41,7 @@ void run_command(tfel::system::ProcessManager& m, int tid, size_t opi, const std
   try { if (with_output_file) m.execute(std::string("."), std::string("cmd"), std::string(""), std::string("/dev/null"), std::map<std::string, std::string>{}); else m.execute("cmd"); verdict = V_OK; }
   catch (std::exception& e) { msg = e.what(); verdict = classify(msg); }
   vsim::event(E_EXEC_END, long(opi), verdict); sample_abs();
+  vsim::pids_settled();
   int expected = f.kind == 2 ? V_EXEC_FAILED : f.kind == 1 ? V_SIGNAL : (f.value == 0 ? V_OK : V_EXIT_NONZERO);
   if (verdict == V_EXIT_NONZERO && expected == V_EXIT_NONZERO) {
     if (msg.find("value " + std::to_string(f.value)) == std::string::npos) verdict = 8;   // wrong exit value reported
@@ -85,13 +86,14 @@ struct H30 : hu::Harness {
     for (size_t i = p.ops.size(); i > 1; --i) { size_t j = size_t(r.range(0, long(i) - 1)); if (p.ops[i - 1][0] != p.ops[j][0]) std::swap(p.ops[i - 1], p.ops[j]); }
     cfg.strategy = int(r.range(0, 3)); cfg.sticky_num = int(r.range(1, 3)); cfg.starve_thread = int(r.range(0, nt - 1));
     cfg.sig_linux_bias = int(bias);
+    cfg.pid_recycle = r.chance(1, 3) ? 1 : 0;   // history dimension: the kernel hands out the pid of a reaped child again
     cfg.max_steps = 4000 + 3000 * long(p.ops.size());
     if (r.chance(1, 5)) { long n = r.range(1, 2); for (long k = 0; k < n; ++k) p.faults.push_back({vsim::F_STRAY_SIGCHLD, r.range(1, 60 * long(p.ops.size())), 0}); }
     return p;
   }
   std::string describe(const hu::Plan& p) override {
     auto par = [&p](size_t i, long d) { return p.params.size() > i ? p.params[i] : d; };
-    std::string s = "threads=" + std::to_string(par(0, 1)) + " sigchld_target=" + (par(1, 0) ? "forking-thread-preferred(Linux)" : "any-eligible-thread(POSIX)") + " manager=" + (par(2, 0) ? "one-per-thread" : "one-per-command") + " cmds:";
+    std::string s = "threads=" + std::to_string(par(0, 1)) + " sigchld_target=" + (par(1, 0) ? "forking-thread-preferred(Linux)" : "any-eligible-thread(POSIX)") + " manager=" + (par(2, 0) ? "one-per-thread" : "one-per-command") + " cmds:";   // (pid recycling is part of cfg)
     size_t n = 0;
     for (auto& o : p.ops) { if (o.size() < 5) continue; if (++n > 20) { s += " ..."; break; }
       s += " t" + std::to_string(o[0]) + ":" + (o[1] == 2 ? std::string("execfail") : o[1] == 1 ? "sig" + std::to_string(o[2]) : "exit" + std::to_string(o[2])) + "@" + std::to_string(o[3]) + ((o.size() > 5 && o[5]) ? ">file" : ""); }
